@@ -4,6 +4,7 @@ From Coq Require Import List String Bool.
 From Helm Require Import Common.Assoc Engine.Types Engine.Eff Engine.Ops Engine.Cluster Engine.Seq.
 From Helm Require Import Engine.MatchDefs Engine.MatchUpdate Engine.MatchExamples Engine.MatchRun Engine.MatchOps Engine.MatchSuccess.
 From Helm Require Import Engine.Obj2 Engine.Update2 Engine.Merge3Proofs Engine.MergeJsonProofs Engine.Update2Proofs Engine.Update2Spec Engine.MergeExamples.
+From Helm Require Import Gen.C02Patch Engine.PatchTable.
 Import ListNotations.
 
 (* kube.Client.update against an API server that rejects nothing ([kfault = None]), for every
@@ -396,7 +397,7 @@ Theorem C02_obj_strategic_map_level :
         | None => if amem k (kidsM o) then None                          (* dropped by the target: removed *)
                   else aget k lm                                         (* foreign: kept *)
         end.
-Proof. intros. eexists. split; [apply s3_TM|]. intros k. apply s3_get_M. Qed.
+Proof. exact s3_map_level. Qed.
 Print Assumptions C02_obj_strategic_map_level.
 
 (* ... keyed lists, element by element (the merge key in the role of the member name).  An element the
@@ -412,7 +413,7 @@ Theorem C02_obj_strategic_klist_level :
                            end)
         | None => if amem k (kidsK o) then None else aget k lk
         end.
-Proof. intros. eexists. split; [apply s3_TK|]. intros k. apply s3_get_K. Qed.
+Proof. exact s3_klist_level. Qed.
 Print Assumptions C02_obj_strategic_klist_level.
 
 (* foreign entries / elements (only in live) are kept, with everything below them, wherever target and live
@@ -668,3 +669,17 @@ Example C02_obj_update_example :
   NoDup (map r2_key [r_dep "v1" ex_t; r_wid "w1" w_t; r_wid "w3" w_t]).
 Proof. exact update2_example. Qed.
 Print Assumptions C02_obj_update_example.
+
+(* ---- translator: the decision structure of updateResource / createPatch, read from pkg/kube/client.go on
+   every run (Gen/C02Patch.v) and interpreted by Engine/PatchTable.v.  For every entry point (Update /
+   UpdateThreeWayMerge), --force or not, built-in or unstructured target: the source text selects the library
+   call, with the old manifest entry / new manifest entry / live object in the argument positions, that the
+   model's [mode_of] and [merge_by] stand for. *)
+Theorem C02_patch_table_agrees_with_model :
+  forall (three_way_entry force unstr : bool),
+    match table_way three_way_entry force unstr with
+    | Some w => way_eqb w (model_way (mode_of force three_way_entry (mkRes2 "" "" "" "" "" unstr (TM [])))) = true
+    | None => False
+    end.
+Proof. exact patch_table_agrees. Qed.
+Print Assumptions C02_patch_table_agrees_with_model.
